@@ -5,7 +5,7 @@ PROPS["C04"] = prop(
     "against an explicit reference model of history and deletion written from the statement and fed only by acknowledged (2xx) requests: "
     "messages (seq, author, content, ts), per-user soft-deleted sets per subscription incarnation, hard-deleted set, delete-transaction counter, log of delete transactions. "
     "Every {get data} answer, {get del} answer and {del msg} outcome is compared with the model; after every step the store snapshot "
-    "(messages: deleted marks, erased content; deletion-log rows per user; topic delete counter) is compared with the model; every {data} frame is checked for cross-topic mixing",
+    "(messages: deleted marks, erased content; deletion-log rows per user; topic delete counter) is compared with the model; every {data} frame is checked for cross-topic mixing; thorough tier: the same generators and oracles also run under Go's native coverage-guided fuzzer (rapid.MakeFuzz, 60 s per target, all cores)",
     "pure unit (TestC04Normalize): rapid lists of 0-7 ranges (singles as hi=0 and hi=low+1, overlapping, nested, adjacent), non-trivial = >=3 ranges with an overlap and an adjacency; "
     "world unit (TestC04History): 3-6 sessions of 4 users (owner, member/P2P peer, members or channel readers), one group topic (35% channel) + one P2P topic (70%), 3-9 messages "
     "(3%: 101-104, beyond the store's maximum of 100 per query) + 6-24 drawn ops: {del msg} soft/hard with 1-6 entries (unsorted, duplicated, touching, overlapping, nested, one apart, "
@@ -21,7 +21,7 @@ PROPS["C04"] = prop(
     "unsubscribing drops the user's deletion log). Permissions are read from the store rows before the step and judged only where the loaded topic's cache agrees "
     "(permObs.agreed; a delete accepted under disagreement stops the judging of that topic). Root/obo requests are not generated.",
     "5/C04", "types-pure+world",
-    [Unit("TestC04Normalize", "server/store/types", quick=50000, thorough=1000000, shards_quick=4, shards_thorough=16),
+    [Unit("TestC04Normalize", "server/store/types", quick=50000, thorough=1000000, shards_quick=4, shards_thorough=16, fuzz="FuzzC04Normalize", fuzztime=60),
      Unit("TestC04History", "server", quick=1500, thorough=80000, shards_quick=8, shards_thorough=16, timeout_quick=400)],
     ["ranges are sorted with RangeSorter before Normalize, as both callers do",
      "a delete request with an entry outside 1 <= low <= last id, hi = 0 or hi >= low (or with no entry) may be refused (then: no effect) or accepted (then: the same clipping rule)",
